@@ -110,6 +110,16 @@ def main():
         if X.shape != (ns, nf) or str(X.dtype) != 'int32':
             h.fail('generate_data.shape_and_type', wit, f'shape {X.shape} dtype {X.dtype}')
             continue
+        # the same seed reproduces the data set whatever happened to the global stream before: second call on one object,
+        # two objects built before either is used, draws consumed in between
+        gA, gB = CC(seed=seed), CC(seed=seed)
+        XA1 = gA.generate_data(nf, ns, cardinality=card, structure=structure, ensure_rep=ensure, seed=seed)
+        np.random.random(7)
+        XB = gB.generate_data(nf, ns, cardinality=card, structure=structure, ensure_rep=ensure, seed=seed)
+        XA2 = gA.generate_data(nf, ns, cardinality=card, structure=structure, ensure_rep=ensure, seed=seed)
+        if not (np.array_equal(XA1, X) and np.array_equal(XB, X) and np.array_equal(XA2, X)):
+            h.fail('generate_data.same_seed_same_data', dict(wit, scenario='second call on the same object / object built earlier / draws in between'),
+                   'the same seed and arguments gave a different data set')
         if not np.array_equal(X, X2):
             h.fail('generate_data.same_seed_same_data', wit, 'two runs with the same seed differ')
         for col in range(nf):
@@ -144,4 +154,4 @@ def main():
 
 
 if __name__ == '__main__':
-    sys.exit(main())
+    sys.exit(common.run_main(main))
